@@ -50,7 +50,9 @@ func mutations() []mutation {
 		{name: "clock.time-1", signed: true, apply: func(e *entry.Entry, w *Adv) { e.Clock = entry.NewLamportClock(e.Clock.GetID(), e.Clock.GetTime()-1) }},
 		{name: "clock.time=0", signed: true, apply: func(e *entry.Entry, w *Adv) { e.Clock = entry.NewLamportClock(e.Clock.GetID(), 0) }},
 		{name: "clock.time=huge", signed: true, apply: func(e *entry.Entry, w *Adv) { e.Clock = entry.NewLamportClock(e.Clock.GetID(), 1<<40) }},
-		{name: "clock.id=other-writer", signed: true, apply: func(e *entry.Entry, w *Adv) { e.Clock = entry.NewLamportClock(w.B.DB.Identity().PublicKey, e.Clock.GetTime()) }},
+		{name: "clock.id=other-writer", signed: true, apply: func(e *entry.Entry, w *Adv) {
+			e.Clock = entry.NewLamportClock(w.B.DB.Identity().PublicKey, e.Clock.GetTime())
+		}},
 		{name: "clock.id=garbage", signed: true, apply: func(e *entry.Entry, w *Adv) { e.Clock = entry.NewLamportClock([]byte{1, 2, 3}, e.Clock.GetTime()) }},
 		{name: "next-drop", signed: true, apply: func(e *entry.Entry, w *Adv) {
 			if len(e.Next) > 0 {
@@ -133,7 +135,9 @@ func runC04Case(c c04Case) (string, []explore.Violation) {
 	}
 	defer w.Close()
 	var vs []explore.Violation
-	bad := func(sig, detail string) { vs = append(vs, explore.Violation{Signature: sig, Detail: c.ID() + ": " + detail}) }
+	bad := func(sig, detail string) {
+		vs = append(vs, explore.Violation{Signature: sig, Detail: c.ID() + ": " + detail})
+	}
 	// valid history on A: a1 (root), a2, a3 (chain member with refs), then merge of B's b1, a4 (two nexts)
 	a1, _ := w.Write(w.SA, "a1")
 	_, _ = w.Write(w.SA, "a2")
@@ -326,7 +330,7 @@ func fieldOf(mutName string) string {
 func init() {
 	explore.Register(&explore.CheckDef{
 		ID: "C04", Level: "exploration",
-		Rule: "full cross product on fresh worlds: valid entry {root, chain member with refs, merge entry with two nexts} x 29 single-field mutations of its wire form (payload, clock time x4, clock id x2, next x3, refs, key x3, signature x3, log id x2, v x2, identity fields x6, claimed hash x2) x delivery {announced with the original claimed hash, announced with recomputed hash, stored as a block and referenced as ancestor by an authorised colluder's valid head} x route {sync, topic, direct channel} x victim pre-state {empty, already holds the valid entries}. The harness classifies each mutant independently (content does not hash to the claimed address; the dependency's signature verification over the mutated content fails; log id differs); mutants in a class must be absent from log and view and the held entries and view unchanged; mutants in no class (identity-block mutations, judged by C03) are recorded only. Plus: the genuine head of another database of the same writer with a history of 1, 2, 3, 5 entries x route x pre-state; no foreign entry may be exposed. Non-trivial = judged mutants.",
+		Rule:   "full cross product on fresh worlds: valid entry {root, chain member with refs, merge entry with two nexts} x 29 single-field mutations of its wire form (payload, clock time x4, clock id x2, next x3, refs, key x3, signature x3, log id x2, v x2, identity fields x6, claimed hash x2) x delivery {announced with the original claimed hash, announced with recomputed hash, stored as a block and referenced as ancestor by an authorised colluder's valid head} x route {sync, topic, direct channel} x victim pre-state {empty, already holds the valid entries}. The harness classifies each mutant independently (content does not hash to the claimed address; the dependency's signature verification over the mutated content fails; log id differs); mutants in a class must be absent from log and view and the held entries and view unchanged; mutants in no class (identity-block mutations, judged by C03) are recorded only. Plus: the genuine head of another database of the same writer with a history of 1, 2, 3, 5 entries x route x pre-state; no foreign entry may be exposed. Non-trivial = judged mutants.",
 		Units:  func(tier string) []explore.Unit { return explore.ChunkUnits("c04", 16) },
 		Budget: func(tier string) float64 { return 400 },
 		RunUnit: func(c *explore.Ctx) {
